@@ -183,12 +183,25 @@ type TokJ struct {
 }
 
 type GenRes struct {
-	Kind string `json:"kind"` // ok | err | panic
-	Toks []TokJ `json:"toks"`
-	Str  []int  `json:"str"`
-	Ent  Dyadic `json:"ent"`
-	Err  string `json:"err"` // error class
-	Msg  string `json:"msg"` // sanitized text
+	Kind  string  `json:"kind"` // ok | err | panic
+	Toks  []TokJ  `json:"toks"`
+	Str   []int   `json:"str"`
+	Ent   Dyadic  `json:"ent"`
+	Err   string  `json:"err"`   // error class
+	Msg   string  `json:"msg"`   // sanitized text
+	AS    int     `json:"as"`    // 1: Atoms and Seps hold what Tokens().Atoms() / Tokens().Separators() returned for this password
+	Atoms CPLists `json:"atoms"` // values of the atom tokens, as the library lists them
+	Seps  CPLists `json:"seps"`  // values of the separator tokens, as the library lists them
+}
+
+// CPLists is a list of texts (code point arrays) that is never written as JSON null.
+type CPLists [][]int
+
+func (c CPLists) MarshalJSON() ([]byte, error) {
+	if c == nil {
+		return []byte("[]"), nil
+	}
+	return json.Marshal([][]int(c))
 }
 
 func TokJs(ts spg.Tokens) []TokJ {
@@ -258,6 +271,11 @@ func ResOf(p *spg.Password, err error, pan interface{}) GenRes {
 		g.Toks = TokJs(p.Tokens())
 		g.Str = CPs(p.String())
 		g.Ent = DyadicOf(p.Entropy)
+		func() {
+			defer func() { recover() }()
+			a, sp := CPsList(p.Tokens().Atoms()), CPsList(p.Tokens().Separators())
+			g.AS, g.Atoms, g.Seps = 1, a, sp
+		}()
 	}
 	return g
 }
